@@ -27,7 +27,7 @@ COMPONENTS = {"real": ["six parse entry points + plugins", "both serializer inte
 ASSUMPTIONS = ["RDF 1.1 content only; datatypes from a private namespace plus xsd:string so that rdflib's lexical "
                "normalisation cannot differ from the generic integration", "set-like containers compared as sets; "
                "container inputs are fed to the generic side in the order rdflib iterates them"]
-PROBES = ["sink_vs_sequence_inputs", "grouped_inputs", "first_group_empty", "parse_runs", "write_runs", "model_streams", "real_streams", "physical_GRAPHS", "physical_QUADS",
+PROBES = ["guessed_stream_any_logical_type", "both_writers_refuse_alike", "sink_vs_sequence_inputs", "grouped_inputs", "first_group_empty", "parse_runs", "write_runs", "model_streams", "real_streams", "physical_GRAPHS", "physical_QUADS",
           "container_inputs", "generator_inputs"]
 SHRINK_LISTS = ["ops", "items"]
 
@@ -52,6 +52,11 @@ def generate(rng, run, tier):
         cfg = nodes.default_cfg(integration="generic", physical=physical, logical=1 if physical == "TRIPLES" else 2,
                                 delimited=True, frame_size=rng.choice([1, 3, 250]), max_names=mn, max_prefixes=mp,
                                 max_datatypes=md, generalized=False, rdf_star=False, entry=entry)
+        if entry == "flat_file" and kind == "write" and rng.random() < 0.5:
+            # the stream class is guessed from the options and the first statement: any of the eight logical types,
+            # fitting the statements or not - both integrations have to make the same guess or refuse alike
+            cfg["logical"] = rng.choice([0, 1, 2, 3, 4, 13, 14, 114])
+            cfg["logical_sweep"] = True
         if entry == "grouped_file":
             if physical == "GRAPHS":
                 cfg["physical"] = physical = "QUADS"
@@ -157,6 +162,25 @@ def write_side(plan, sim):
         return [], None
     if entry == "grouped_file":
         return grouped_write_side(plan, sim, cfg_g, cfg_r, stmts)
+    if cfg_g.get("logical_sweep"):
+        sim.count("guessed_stream_any_logical_type")
+        ops_g = [["stmt", *T.to_json(st)] for st in held]
+        res = []
+        for cfg_x, ops_x in ((cfg_g, ops_g), (cfg_r, plan["ops"])):
+            try:
+                res.append(nodes.serialize(cfg_x, ops_x, None))
+            except Exception as e:  # noqa: BLE001
+                res.append(type(e).__name__)
+        if isinstance(res[0], str) and res[0] == res[1]:
+            sim.count("both_writers_refuse_alike")
+        v = []
+        if res[0] != res[1]:
+            show = [r if isinstance(r, str) else f"{len(r)} bytes" for r in res]
+            v.append({"clause": "C15.serializers_differ",
+                      "sig": {"physical": cfg_g["physical"], "input": "generator, guessed stream", "same_statements": None},
+                      "msg": f"flat_stream_to_file with logical type {cfg_g['logical']} and "
+                             f"{'quads' if len(stmts[0]) == 4 else 'triples'}: generic -> {show[0]}, rdflib -> {show[1]}"})
+        return v, (repr(sorted(cfg_g.items())), repr(stmts)) if len(stmts) >= 2 else None
     if entry == "sink_vs_sequence":
         # the generic sink keeps the order in which statements were added; its rdflib counterpart is the same
         # statements as a sequence (rdflib has no ordered container)
